@@ -92,6 +92,8 @@ pub struct Obs {
     pub last_pending: bool,
     pub sleeping_for_good: bool,
     pub last_any_child_pending: bool,
+    /// for replier n: how many child events had happened when its registration was sent into the channel
+    pub server_enq_at: Vec<usize>,
     pub closed: bool,
 }
 
@@ -103,7 +105,7 @@ pub fn run_scenario(events: &[&str]) -> Obs {
     let waker = wk.clone().into();
     let mut cx = Context::from_waker(&waker);
     let mut segs: Vec<String> = vec![];
-    let mut o = Obs { line: String::new(), annotated: vec![], panicked: None, spun: false, done: false, events: vec![], n_clients: 0, n_servers: 0, last_pending: false, sleeping_for_good: false, last_any_child_pending: false, closed: false };
+    let mut o = Obs { line: String::new(), annotated: vec![], panicked: None, spun: false, done: false, events: vec![], n_clients: 0, n_servers: 0, last_pending: false, sleeping_for_good: false, last_any_child_pending: false, closed: false, server_enq_at: vec![] };
     let mut first = true;
     for ev in events {
         if o.done || o.panicked.is_some() { o.annotated.push(ev.split('@').next().unwrap().to_string()); continue; }
@@ -114,7 +116,7 @@ pub fn run_scenario(events: &[&str]) -> Obs {
             let (ks, ts) = body.split_once('/').expect("socket needs sink/stream scripts");
             let is_client = ev.starts_with("+c");
             let id = if is_client { o.n_clients } else { V + o.n_servers };
-            if is_client { o.n_clients += 1 } else { o.n_servers += 1 }
+            if is_client { o.n_clients += 1 } else { o.n_servers += 1; o.server_enq_at.push(o.events.len()); }
             let si = MockSink { id, kind: 'k', script: SinkScript::parse(ks), log: log.clone(), silent };
             let st = MockStream { id, kind: 't', script: parse_stream(ts), log: log.clone(), silent };
             let sock = if is_client { Socket::Client((Box::pin(si), Box::pin(st))) } else { Socket::Server((Box::pin(si), Box::pin(st))) };
@@ -249,6 +251,27 @@ pub fn monitor(o: &Obs) -> Result<(), String> {
             }
         }
     }
+    // C08 / C10: a replier whose sink failed when asked for readiness is unbound at once, so the next one to
+    // register binds: a replier must not be told "already bound" when every replier before it had failed, been dropped or
+    // been rejected before its own registration was even sent
+    let mut gone_at: BTreeMap<usize, usize> = BTreeMap::new(); // replier n -> index of the event after which it cannot be bound
+    for (idx, e) in o.events.iter().enumerate() {
+        match e {
+            // (a flush error of a replier that is leaving anyway only warns; it is unbound once the requestors are flushed)
+            Ev::SinkReady(i, A::Err) if *i >= V => { gone_at.entry(*i - V).or_insert(idx); }
+            // (a replier whose stream ended stays bound until the flush towards it completes: only its drop counts)
+            Ev::Dropped(_, i) if *i >= V => { gone_at.entry(*i - V).or_insert(idx); }
+            Ev::SinkSend(i, Frame::Error(_), _) if *i >= V => {
+                let m = *i - V;
+                let enq = o.server_enq_at.get(m).copied().unwrap_or(usize::MAX);
+                if m > 0 && (0..m).all(|n| gone_at.get(&n).map(|g| *g < enq).unwrap_or(false)) {
+                    return Err(format!("C08/C10: replier v{m} was rejected as already-bound although every earlier replier had failed, been dropped or been rejected before v{m} registered (a failed replier was not unbound)"));
+                }
+                gone_at.entry(m).or_insert(idx);
+            }
+            _ => {}
+        }
+    }
     // C09 / C16
     if o.sleeping_for_good && o.closed && !o.done && !o.last_any_child_pending { return Err("C16: the registration channel is closed and nothing is pending, yet the router sleeps instead of finishing".into()); }
     Ok(())
@@ -328,17 +351,38 @@ pub fn run(cfg: &Cfg) {
             "rr +s_/p poll +s_/p +s_/p poll poll poll", "rr +s_/_ poll +s_/p poll +c_/i:m1,p poll poll",
             "rr +c_/i:ok,i:m1,p +s_/p poll poll poll", "rr +c_/p +s_/i:ok,i:m1[cid=0],p poll poll poll",
             "rr +c_/i:m1,p +sr=E/p poll poll poll", "rr +c_/i:m1,p +ss=E/p poll poll poll", "rr +c_/i:m1,p +sf=E/p poll poll poll",
-            "rr +c_/i:m1,i:m2,p +sr=E/p +s_/p poll poll poll poll", "rr +c_/i:m1[cid=9],p +s_/p poll poll poll",
+            "rr +c_/i:m1,i:m2,p +sr=E/p +s_/p poll poll poll poll",
+            // a replier whose sink fails while its stream stays open and quiet; another replier arrives later
+            "rr +c_/i:m1,p,p,p +sr=E/p,p,p,p,p,p poll poll +s_/p,p,p poll poll +c_/i:m2,p poll poll",
+            "rr +c_/i:m1,p,p,p +s~r=E/p,p,p,p,p,p poll poll +s_/p,p,p poll poll +c_/i:m2,p poll poll",
+            "rr +c_/i:m1,p,p,p +sf=E/p,p,p,p,p,p poll poll +s_/p,p,p poll poll +c_/i:m2,p poll poll",
+            "rr +c_/i:m1,p,p,p +sr=RE/p,i:m7[cid=0],p,p,p,p poll poll +c_/i:m2,p poll +s_/p,p,p poll poll poll", "rr +c_/i:m1[cid=9],p +s_/p poll poll poll",
             "rr +c_/p +s_/i:m1,i:m2[cid=zz],i:m3[cid=7],i:m4[cid=0],p poll poll poll",
             "rr +s_/p +c_/p close poll poll poll", "rr +c_/i:m1,p close poll poll", "rr close poll", "rr +s~_/p +c_/p poll +c_/i:m5,p poll poll poll",
         ] { cases.push(c.to_string()); }
+        // bursts of registrations drained in one poll (more than any per-poll allowance a router might have), idle
+        // requestors among them, with and without a replier, with and without shutdown behind the burst
+        for n in [1usize, 7, 15, 16, 17, 31, 32, 33, 64, 98] {
+            for lead in ["+s_/p", "+c~_/p", "+c_/i:m1,p"] {
+                for (other, member) in [("+s_/p", "+c_/p"), ("+s~_/p", "+c~_/p"), ("+c~_/p", "+c~_/p")] {
+                    let burst: Vec<String> = (0..n).map(|i| if i % 7 == 6 { other.to_string() } else { member.to_string() }).collect();
+                    for tail in ["poll poll poll", "close poll poll poll", "poll close poll poll"] {
+                        cases.push(format!("rr {lead} {} {tail}", burst.join(" ")));
+                    }
+                }
+            }
+        }
         let mut r = Rng::new(cfg.seed, "reqrep");
         for _ in 0..cfg.n(4000, 200_000) {
             let bias = *r.pick(&[0u64, 0, 3, 8]);
             cases.push(format!("rr {}", gen_scenario(&mut r, bias).join(" ")));
         }
     }
+    let mut hangs = 0;
     for c in &cases {
+        // a router that spins costs one time-out per scenario: a handful of witnesses is enough; the rest of the
+        // run is not executed (and shows up as a divergence from the model, not as a property failure)
+        if hangs >= 8 { out.stat("not_run_after_8_hangs"); out.case(c, "NOT-RUN-AFTER-HANGS", Ok(())); continue; }
         // every scenario runs in the guarded child: a poll that never returns is observed as a hang
         let res = crate::childrun::guarded_timeout("rr", c.as_bytes(), std::time::Duration::from_secs(4));
         match res {
@@ -349,7 +393,7 @@ pub fn run(cfg: &Cfg) {
                 let mon = match j["mon"].as_str() { Some("ok") => Ok(()), Some(w) => Err(w.to_string()), None => Err("?".into()) };
                 out.case(j["case"].as_str().unwrap(), j["line"].as_str().unwrap(), mon);
             }
-            crate::childrun::Outcome::Hang => { out.stat("impl_hung"); out.case(c, "HANG", Err("C09: a poll of the request/reply router never returned (it loops without yielding and without calling any child)".into())); }
+            crate::childrun::Outcome::Hang => { hangs += 1; out.stat("impl_hung"); out.case(c, "HANG", Err("C09: a poll of the request/reply router never returned (it loops without yielding and without calling any child)".into())); }
             crate::childrun::Outcome::Panic(p) => out.case(c, "HARNESS-PANIC", Err(format!("harness panicked: {p}"))),
             crate::childrun::Outcome::Abort(a) => out.case(c, "ABORT", Err(format!("process aborted: {a}"))),
         }
